@@ -76,6 +76,8 @@ var Family = []*T{
 	{Name: "LeadOptLP", Kind: "struct", Repr: "listpairs", NoGen: true, Fields: []F{{Name: "A", Type: "Int", Optional: true}, {Name: "B", Type: "String", Optional: true}, {Name: "C", Type: "Int"}, {Name: "D", Type: "String", Optional: true}, {Name: "E", Type: "Int"}}},
 	{Name: "TupleOpt", Kind: "struct", Repr: "tuple", Fields: []F{{Name: "X", Type: "Int", Optional: true}, {Name: "Y", Type: "String", Optional: true}}},
 	{Name: "UnionSP2", Kind: "union", Repr: "stringprefix", Delim: ":", Members: []M{{Type: "UnionSP", Discr: "u"}, {Type: "Foo", Discr: "g"}}},
+	// a stringprefix union without delimiter (bindnode only: the generator requires one); the payload's first byte is free, so it can equal a byte of the prefix
+	{Name: "UnionSP0", Kind: "union", Repr: "stringprefix", Delim: "", NoGen: true, Members: []M{{Type: "Foo", Discr: "ab"}, {Type: "Bar", Discr: "c"}}},
 	{Name: "TupleON", Kind: "struct", Repr: "tuple", Fields: []F{{Name: "X", Type: "String"}, {Name: "Y", Type: "String", Optional: true, Nullable: true}, {Name: "Z", Type: "String", Optional: true, Nullable: true}}},
 	{Name: "Any", Kind: "any", NoGen: true},
 	{Name: "ListNA", Kind: "list", Elem: "Any", ElemNullable: true, NoGen: true},
